@@ -277,12 +277,11 @@ theorem two_steps_ancRaw {g : G} {a b c : Nat} (h1 : (a, b) ∈ g.edges) (h2 : (
 
 /-- Well-formedness of a collected project (guaranteed by collection, C13, and by how nodes are
 identified): task ids are unique, a task does not list the same product twice, module files are
-not products, no task consumes its own product. -/
+not products. -/
 structure WF (P : Project) : Prop where
   ids : ∀ t ∈ P.tasks, ∀ u ∈ P.tasks, t.id = u.id → t = u
   prodsNodup : ∀ t ∈ P.tasks, t.prods.Nodup
   srcNotProd : ∀ t ∈ P.tasks, ∀ u ∈ P.tasks, t.src ∉ u.prods
-  noSelf : ∀ t ∈ P.tasks, ∀ d ∈ t.deps, d ∉ t.prods
 
 structure GraphOK (P : Project) (g : G) : Prop where
   taskNode : ∀ t ∈ P.tasks, tv t.id ∈ g.nodes
@@ -291,6 +290,7 @@ structure GraphOK (P : Project) (g : G) : Prop where
   succs : ∀ t ∈ P.tasks, ∀ v ∈ g.succs (tv t.id), ∃ p ∈ t.prods, v = nv p
   predsOdd : ∀ t v, v ∈ g.preds (tv t) → isTaskV v = false
   uniqueProducer : ∀ t ∈ P.tasks, ∀ u ∈ P.tasks, ∀ p, p ∈ t.prods → p ∈ u.prods → t = u
+  noSelf : ∀ t ∈ P.tasks, ∀ d ∈ t.deps, d ∉ t.prods
   producerAnc : ∀ t ∈ P.tasks, ∀ u ∈ P.tasks, ∀ p ∈ u.prods, nv p ∈ g.preds (tv t.id) → u.id ∈ taskAnc g t.id
 
 theorem find?_of_mem {P : Project} (hwf : WF P) {t : TaskSpec} (ht : t ∈ P.tasks) :
@@ -336,7 +336,7 @@ theorem createDag_ok {P : Project} {cfg : Cfg} {g : G} {marks : List Nat}
 
 theorem graphOK_of_createDag {P : Project} {cfg : Cfg} {g : G} {marks : List Nat} (hwf : WF P)
     (h : createDag P cfg = .ok (g, marks)) : GraphOK P g := by
-  obtain ⟨rfl, hshared, _⟩ := createDag_ok h
+  obtain ⟨rfl, hshared, hcyc⟩ := createDag_ok h
   have hb : ∀ e ∈ (baseGraph P).edges, isTaskV e.1 = true → isTaskV e.2 = false := by
     intro e he h1
     obtain ⟨t, _, ⟨d, _, rfl⟩ | ⟨p, _, rfl⟩⟩ := (mem_baseGraph_edges P e).1 he
@@ -365,7 +365,21 @@ theorem graphOK_of_createDag {P : Project} {cfg : Cfg} {g : G} {marks : List Nat
     have e2 : tv u.id ∈ (baseGraph P).preds (nv p) :=
       mem_preds.2 ((mem_baseGraph_edges P _).2 ⟨u, hu, Or.inr ⟨p, hpu, rfl⟩⟩)
     exact hwf.ids t ht u hu (tv_inj' (length_le_one_eq this e1 e2))
-  refine ⟨?_, ?_, ?_, ?_, ?_, huniq, ?_⟩
+  -- no task consumes its own product: that would be a cycle, and the graph was accepted
+  have hnoself : ∀ t ∈ P.tasks, ∀ d ∈ t.deps, d ∉ t.prods := by
+    intro t ht d hd hp
+    have e1 : (nv d, tv t.id) ∈ (modifyDag P (baseGraph P)).edges :=
+      hinv.sup _ ((mem_baseGraph_edges P _).2 ⟨t, ht, Or.inl ⟨d, hd, rfl⟩⟩)
+    have e2 : (tv t.id, nv d) ∈ (modifyDag P (baseGraph P)).edges :=
+      hinv.sup _ ((mem_baseGraph_edges P _).2 ⟨t, ht, Or.inr ⟨d, hp, rfl⟩⟩)
+    have hraw := two_steps_ancRaw e2 e1
+    have hnode : tv t.id ∈ (modifyDag P (baseGraph P)).nodes :=
+      hinv.nodes _ ((mem_baseGraph_nodes P _).2 ⟨t, ht, Or.inl rfl⟩)
+    have : (modifyDag P (baseGraph P)).hasCycle = true := by
+      unfold G.hasCycle
+      exact List.any_eq_true.2 ⟨tv t.id, hnode, by simpa using hraw⟩
+    rw [hcyc] at this; cases this
+  refine ⟨?_, ?_, ?_, ?_, ?_, huniq, hnoself, ?_⟩
   · intro t ht
     exact hinv.nodes _ ((mem_baseGraph_nodes P _).2 ⟨t, ht, Or.inl rfl⟩)
   · intro t ht d hd
@@ -397,7 +411,7 @@ theorem graphOK_of_createDag {P : Project} {cfg : Cfg} {g : G} {marks : List Nat
           subst hxu
           have : p = d := nv_inj (Prod.mk.inj he).1
           subst this
-          exact hwf.noSelf x hx p hd hp
+          exact hnoself x hx p hd hp
         · exact absurd (Prod.mk.inj he).1.symm (tv_ne_nv _ _)
       · -- after edge: `nv p` is a product of the target `o ≠ t`, so `p` has two producers
         simp only at hs htid
